@@ -723,3 +723,9 @@ def declare_store(reg):
         props=["C04", "C13"],
         ghost={"inv_except": ["seq-keys-exist"]},
     )
+
+
+def declare_concurrency_oracles(reg):
+    for pid in ("C10", "C03", "C15"):
+        reg.properties.setdefault(pid, {}).setdefault("bounded", []).append(
+            {"name": "uid-command-during-expunge", "module": "harness.e2e", "func": "ConcurrentExpunge"})
